@@ -65,12 +65,13 @@ func TestVerifEpisodes(t *testing.T) {
 		}
 		// leftovers of a hung episode must not leak into the next one: stop this child, the parent restarts the rest
 		clean := false
-		for i := 0; i < 50; i++ {
-			if runtime.NumGoroutine() <= base+1 {
+		for i := 0; i < 100; i++ {
+			// no goroutine of the library may survive into the next episode (its census is process-wide)
+			if runtime.NumGoroutine() <= base+1 && len(census()) == 0 {
 				clean = true
 				break
 			}
-			time.Sleep(200 * time.Microsecond)
+			time.Sleep(300 * time.Microsecond)
 		}
 		if !clean {
 			if journal != nil {
